@@ -23,6 +23,7 @@ TRUSTED_BASE = [
     "Lean 4.33.0 kernel (and leanchecker's replay of the .olean files in the thorough tier)",
     "axioms: every theorem's axiom set is audited on each run and must be a subset of {propext, Classical.choice, Quot.sound}; no sorry/admit/axiom/native_decide/bv_decide in the library (grepped each run)",
     "the correspondence harness under /verif/harness (generators, canonicaliser, model driver protocol)",
+    "the translation rules of harness/translate/*.py (Python syntax tree -> Lean definitions in lean/CmGen, regenerated on every run): that each generated definition equals the model's is proved in Lean, that the rules render Python faithfully is assumed (DESIGN 10.7) and cross-checked by the bit-exact correspondence of the model with CPython",
     "IEEE-754 double rounding and libm accuracy; that non-NaN doubles are totally ordered and decimal literals keep their order (LawfulNumOrd / LawfulLit at Float)",
 ]
 
